@@ -23,32 +23,14 @@ Inductive form :=
 | FDecl (root : decl_root) (names : list name)
 | FCall (f : form) (args : list form).
 
-(* does compiling the form leave statements behind (so that an enclosing fn cannot be a lambda)? *)
-Fixpoint has_stmts (f : form) : bool :=
-  match f with
-  | FLit | FRef _ => false
-  | FSetv _ _ | FDefn _ _ _ | FClass _ _ | FDecl _ _ => true
-  | FDo es => match es with [] => false | [e] => has_stmts e | _ => true end
-  | FLet bs body => match bs with _ :: _ => true | [] => match body with [] => false | [e] => has_stmts e | _ => true end end
-  | FFn _ body => match body with [] => false | [e] => has_stmts e | _ => true end
-  | FCall f args => has_stmts f || existsb has_stmts args
-  end.
-
-(* (fn ...) that becomes a FunctionDef: its Result carries temp_variables, and an assignment of it to a
-   symbol goes through Result.rename (one scope.assign, no scope.access of the target) *)
-Definition fn_as_def (e : form) : bool :=
-  match e with
-  | FFn _ body => match body with [] => false | [b] => has_stmts b | _ => true end
-  | _ => false
-  end.
-
 Record wstate := W { w_sid : nat; w_let : nat }.
 
 Section Walk.
 Variable fresh : name -> nat -> name.
 
-Definition target_events (x : name) (by_rename : bool) : list event :=
-  if by_rename then [EAssign x] else [EAccess x; EAssign x].
+(* compile_assign: _storeize(target, compile(target)) -- the symbol is compiled (scope.access), then a
+   new Name with the resulting id is handed to scope.assign *)
+Definition target_events (x : name) : list event := [EAccess x; EAssignSame].
 
 Fixpoint events_of (f : form) (w : wstate) {struct f} : list event * wstate :=
   let evs := (fix evs (fs : list form) (w : wstate) {struct fs} : list event * wstate :=
@@ -59,7 +41,7 @@ Fixpoint events_of (f : form) (w : wstate) {struct f} : list event * wstate :=
   match f with
   | FLit => ([], w)
   | FRef x => ([EAccess x], w)
-  | FSetv x e => let '(a, w1) := events_of e w in (a ++ target_events x (fn_as_def e), w1)
+  | FSetv x e => let '(a, w1) := events_of e w in (a ++ target_events x, w1)
   | FDo es => evs es w
   | FLet bs body =>
       let sid := w_sid w in
@@ -70,7 +52,7 @@ Fixpoint events_of (f : form) (w : wstate) {struct f} : list event * wstate :=
                           let '(a, w1) := events_of e w in
                           let new := fresh x (w_let w1) in
                           let '(b, w2) := binds r (W (w_sid w1) (S (w_let w1))) in
-                          ([EEnter KLet sid []] ++ a ++ [EExit; ELetAdd sid x new] ++ target_events new (fn_as_def e) ++ b, w2)
+                          ([EEnter KLet sid []] ++ a ++ [EExit; ELetAdd sid x new] ++ target_events new ++ b, w2)
                       end) in
       let '(a, w1) := binds bs (W (S sid) (w_let w)) in
       let '(b, w2) := evs body w1 in
